@@ -22,16 +22,46 @@
 (* --ignore-sop-class its abstract syntax is the file's SOP class; the data  *)
 (* set decodes in the context's transfer syntax to the file's data set.      *)
 (* Violating requests are collected in `bad` as [l, why] (all are reported). *)
+(*                                                                           *)
+(* Growth beyond C33 (runs recorded with wire = TRUE, thorough tier): the    *)
+(* DIMSE / upper-layer events of each association are checked against PS3.7  *)
+(* sequencing rules and against what the exchange model StoreScuExch.tla     *)
+(* says about the run (case.expect_x, computed by TLC from the model):       *)
+(*   assoc   {assoc, result: "ac"|"rj"|"none_accepted"}                      *)
+(*   rq      {assoc, seq, file, ctx, ctx_ok, field, msgid, dstype, prio,     *)
+(*            glen, cmd_len, cmd_cls, pdvs: [[ctx, kind, last, len]..],      *)
+(*            pdus: [length field of each P-DATA-TF PDU..], early}           *)
+(*                     one complete request; kind 0 = command, 1 = data;     *)
+(*                     early = bytes of the tool already waiting when the    *)
+(*                     request was complete and not yet answered             *)
+(*   rq_part {assoc, seq}   a request cut short by the acceptor's A-ABORT    *)
+(*   rsp     {assoc, seq, kind}   the acceptor's C-STORE-RSP: "ok" | "warn"  *)
+(*                     | "fail" | "wrong_msgid"                              *)
+(*   peer    {assoc, what: "close"|"abort"}   scripted misbehaviour          *)
+(*   fin     {assoc, how: "release"|"abort"|"eof"|.., after_rp, pending}     *)
+(*                     how the tool ended the association                    *)
+(*   end     {exit, timed_out}                                               *)
+(* Findings of this part are collected in `extra` as [l, tag]; they are      *)
+(* observations, never C33 violations.                                       *)
 (***************************************************************************)
-EXTENDS Naturals, Sequences, TLC, Json, IOUtils
+EXTENDS Naturals, Sequences, FiniteSets, TLC, Json, IOUtils
 
 Rec == ndJsonDeserialize(IOEnv.TRACE)
 
-VARIABLES l, files, policy, ign, open, bad
-tvars == <<l, files, policy, ign, open, bad>>
+VARIABLES l, files, policy, ign, open, bad,
+          cs,      \* the case event of the run
+          as,      \* the association being observed
+          tot,     \* totals of the run
+          extra    \* beyond C33: [l, tag] observations
+tvars == <<l, files, policy, ign, open, bad, cs, as, tot, extra>>
+
+NoAs == [n |-> 0, result |-> "", used |-> {}, k |-> 0, last |-> "none", cur |-> 0]
+NoTot == [assocs |-> 0, reqs |-> 0, okfiles |-> {}, broken |-> FALSE, irregular |-> FALSE]
+NoCs == [wire |-> FALSE]
 
 TInit == l = 1 /\ files = <<>> /\ policy = <<>> /\ ign = FALSE /\ open = FALSE /\ bad = <<>>
-         /\ TLCSet(1, 1) /\ TLCSet(2, <<>>)
+         /\ cs = NoCs /\ as = NoAs /\ tot = NoTot /\ extra = <<>>
+         /\ TLCSet(1, 1) /\ TLCSet(2, <<>>) /\ TLCSet(3, <<>>)
 Ev(e) == l <= Len(Rec) /\ Rec[l].ev = e /\ l' = l + 1
 R == Rec[l]
 
@@ -46,18 +76,110 @@ Why(s) ==
 
 TCase == /\ Ev("case") /\ ~open
          /\ files' = R.files /\ policy' = R.policy /\ ign' = R.ign /\ open' = TRUE
-         /\ UNCHANGED bad
+         /\ cs' = R /\ as' = NoAs /\ tot' = NoTot
+         /\ UNCHANGED <<bad, extra>>
 TStore == /\ Ev("store") /\ open
           /\ (R.file \in 1..Len(files) => R.file_cls = files[R.file].cls)    \* recording is self-consistent
           /\ bad' = IF Why(R) = "ok" \/ Len(bad) >= 400 THEN bad ELSE Append(bad, [l |-> l, why |-> Why(R)])
-          /\ UNCHANGED <<files, policy, ign, open>>
-TEnd == Ev("end") /\ open /\ open' = FALSE /\ UNCHANGED <<files, policy, ign, bad>>
+          /\ UNCHANGED <<files, policy, ign, open, cs, as, tot, extra>>
 
-TNext == TCase \/ TStore \/ TEnd
+---------------------------------------------------------------------------
+(* beyond C33 *)
+(* notes: a sequence of <<violated?, tag>>; the violated ones are appended to `extra` *)
+RECURSIVE Tagged(_)
+Tagged(ts) == IF ts = <<>> THEN <<>>
+              ELSE (IF ts[1][1] THEN <<[l |-> l, tag |-> ts[1][2]]>> ELSE <<>>) \o Tagged(Tail(ts))
+Note(ts) == extra' = IF Len(extra) >= 2000 THEN extra ELSE extra \o Tagged(ts)
+
+MaxAssocs == IF cs.conc = 0 THEN 1 ELSE cs.conc
+
+(* PS3.7 / PS3.8 9.3.1: the command set fragments (last flag on the final one only), then the *)
+(* data set fragments (last flag on the final one only); pdv = <<ctx, kind, last, len>>         *)
+ShapeOk(p) ==
+  LET n == Len(p)
+      cmd == {j \in 1..n : p[j][2] = 0}
+      c == Cardinality(cmd)
+  IN /\ c >= 1 /\ cmd = 1..c /\ n > c
+     /\ \A j \in 1..n : p[j][3] = (IF j = c \/ j = n THEN 1 ELSE 0)
+
+TAssoc == /\ Ev("assoc") /\ open /\ cs.wire
+          /\ as' = [NoAs EXCEPT !.n = R.assoc, !.result = R.result]
+          /\ tot' = [tot EXCEPT !.assocs = @ + 1]
+          /\ Note(<< <<tot.assocs + 1 > MaxAssocs, "more_associations_than_concurrency">> >>)
+          /\ UNCHANGED <<files, policy, ign, open, bad, cs>>
+
+TRq == /\ Ev("rq") /\ open /\ cs.wire /\ R.assoc = as.n /\ R.seq = as.k + 1
+       /\ Note(<< <<R.field # 1, "rq_command_field_not_0001H">>,
+                  <<R.dstype = 257, "rq_announces_no_data_set">>,
+                  <<R.prio \notin {0, 1, 2}, "rq_priority_invalid">>,
+                  <<R.msgid \in as.used \/ R.msgid \notin 0..65535, "rq_message_id_reused">>,
+                  <<R.file \notin 1..Len(files), "rq_affected_instance_unknown">>,
+                  <<R.file \in 1..Len(files) /\ R.cmd_cls # files[R.file].cls, "rq_affected_sop_class_differs">>,
+                  <<R.glen # R.cmd_len - 12, "rq_command_group_length_wrong">>,
+                  <<~ShapeOk(R.pdvs), "rq_fragment_flags_or_order_wrong">>,
+                  <<\E j \in 1..Len(R.pdvs) : R.pdvs[j][1] # R.ctx, "rq_data_on_another_context">>,
+                  <<~R.ctx_ok, "rq_on_context_not_accepted">>,
+                  <<\E j \in 1..Len(R.pdus) : R.pdus[j] > cs.max_len, "pdu_longer_than_acceptor_max_length">>,
+                  <<R.early > 0, "next_message_sent_before_response">>,
+                  <<as.last = "pending", "rq_while_request_outstanding">>,
+                  <<as.last = "fail" /\ cs.ff, "continued_after_failure_despite_fail_first">>,
+                  <<as.last = "wrong_msgid", "obs_continued_after_response_with_wrong_message_id">> >>)
+       /\ as' = [as EXCEPT !.k = @ + 1, !.used = @ \cup {R.msgid}, !.last = "pending", !.cur = R.file]
+       /\ tot' = [tot EXCEPT !.reqs = @ + 1]
+       /\ UNCHANGED <<files, policy, ign, open, bad, cs>>
+
+TRqPart == /\ Ev("rq_part") /\ open /\ cs.wire /\ R.assoc = as.n /\ R.seq = as.k + 1
+           /\ as' = [as EXCEPT !.k = @ + 1, !.last = "pending", !.cur = 0]
+           /\ tot' = [tot EXCEPT !.reqs = @ + 1]
+           /\ UNCHANGED <<files, policy, ign, open, bad, cs, extra>>
+
+TRsp == /\ Ev("rsp") /\ open /\ cs.wire /\ R.assoc = as.n /\ R.seq = as.k /\ as.last = "pending"
+        /\ as' = [as EXCEPT !.last = R.kind]
+        /\ tot' = IF R.kind \in {"ok", "warn", "wrong_msgid"} THEN [tot EXCEPT !.okfiles = @ \cup {as.cur}] ELSE tot
+        /\ UNCHANGED <<files, policy, ign, open, bad, cs, extra>>
+
+TPeer == /\ Ev("peer") /\ open /\ cs.wire /\ R.assoc = as.n
+         /\ as' = [as EXCEPT !.last = R.what]
+         /\ UNCHANGED <<files, policy, ign, open, bad, cs, tot, extra>>
+
+(* how the model's ending shows on the wire *)
+HowOf(ended) == CASE ended = "release" -> "release" [] ended = "abort" -> "abort" [] ended = "abort_reply" -> "abort"
+                  [] ended = "drop" -> "eof" [] ended = "refused" -> "abort" [] OTHER -> "?"
+Refused == as.result \in {"rj", "none_accepted"}
+
+TFin == /\ Ev("fin") /\ open /\ cs.wire /\ R.assoc = as.n
+        /\ Note(<< <<R.how = "release" /\ (R.pending \/ as.last = "pending"), "release_with_request_outstanding">>,
+                   <<as.last = "close" /\ R.how # "eof", "sent_after_peer_closed">>,
+                   <<cs.expect_x.exact /\ R.how # HowOf(cs.expect_x.ended), "ending_differs_from_model">>,
+                   (* observations on the endings the model has as named deviations *)
+                   <<as.last = "abort" /\ R.how = "abort", "obs_abort_sent_in_reply_to_peer_abort">>,
+                   <<Refused /\ R.how = "abort", "obs_abort_sent_after_association_refused">>,
+                   <<as.last = "wrong_msgid" /\ R.how = "release", "obs_continued_after_response_with_wrong_message_id">> >>)
+        /\ tot' = [tot EXCEPT !.broken = @ \/ R.how # "release",
+                              !.irregular = @ \/ R.how \notin {"release", "abort", "eof"} \/ (R.how = "release" /\ R.after_rp # "eof")]
+        /\ as' = NoAs
+        /\ UNCHANGED <<files, policy, ign, open, bad, cs>>
+
+AllOk == Cardinality(tot.okfiles \cap (1..Len(files))) = Len(files)
+TEnd == /\ Ev("end") /\ open /\ open' = FALSE
+        /\ IF cs.wire
+           THEN Note(<< <<R.timed_out, "tool_killed_by_guard">>,
+                        <<cs.expect_x.exact /\ ((R.exit = 0) # (cs.expect_x.exit = "ok")), "exit_status_differs_from_model">>,
+                        <<cs.expect_x.exact /\ tot.reqs # cs.expect_x.nreq, "number_of_requests_differs_from_model">>,
+                        (* an association that ends neither by release + close, nor A-ABORT, nor plain close; with several *)
+                        (* associations a failing exit of the process cuts the others short, which is not judged          *)
+                        <<tot.irregular /\ (cs.conc <= 1 \/ R.exit = 0), "association_ended_irregularly">>,
+                        (* documentation: --fail-first = fail if not all files can be transferred *)
+                        <<cs.ff /\ ~AllOk /\ R.exit = 0, "doc_fail_first_but_exit_0_with_untransferred_files">>,
+                        <<~cs.ff /\ ~AllOk /\ tot.broken /\ R.exit = 0, "obs_exit_0_after_broken_association_files_untransferred">> >>)
+           ELSE UNCHANGED extra
+        /\ UNCHANGED <<files, policy, ign, bad, cs, as, tot>>
+
+TNext == TCase \/ TStore \/ TAssoc \/ TRq \/ TRqPart \/ TRsp \/ TPeer \/ TFin \/ TEnd
 TSpec == TInit /\ [][TNext]_tvars
 Track == /\ TLCSet(1, IF l > TLCGet(1) THEN l ELSE TLCGet(1))
-         /\ (l = Len(Rec) + 1 => TLCSet(2, bad))
+         /\ (l = Len(Rec) + 1 => TLCSet(2, bad) /\ TLCSet(3, extra))
 Accepted == IF TLCGet(1) = Len(Rec) + 1
-            THEN PrintT(<<"BADCASES", ToJson(TLCGet(2))>>)
+            THEN PrintT(<<"BADCASES", ToJson(TLCGet(2))>>) /\ PrintT(<<"EXTRA", ToJson(TLCGet(3))>>)
             ELSE Print(<<"REJECTED", TLCGet(1), ToJson(Rec[TLCGet(1)])>>, FALSE)
 =============================================================================
